@@ -229,18 +229,18 @@ func errClass(err error) string {
 	return "denied"
 }
 
-var opNames = []string{"ExecutionAllowed", "ExecutionAllowedWithArgsHook", "ExecutionAllowed/alt-args", "ExecutionAllowed/alt-args", "ExecutionAllowed/incomplete-loader", "dlg.Policy.Match/alt-data", "inv.ToSealed", "inv.ToDagCbor", "inv.ToDagJson", "inv.ToSealedWriter",
+var opNames = []string{"ExecutionAllowed/hook-adds-key", "ExecutionAllowed/hook-fresh-args", "ExecutionAllowed", "ExecutionAllowedWithArgsHook", "ExecutionAllowed/alt-args", "ExecutionAllowed/alt-args", "ExecutionAllowed/incomplete-loader", "dlg.Policy.Match/alt-data", "inv.ToSealed", "inv.ToDagCbor", "inv.ToDagJson", "inv.ToSealedWriter",
 	"inv.accessors", "args.Iter", "args.String", "args.ToIPLD", "args.Equals", "args.GetNode", "args.WriteableClone",
 	"meta.Iter", "meta.String", "meta.Get", "meta.GetEncrypted", "meta.GetEncrypted", "meta.GetBytes", "dlg.Meta.GetEncrypted", "inv.IsValid",
 	"dlg.ToSealed", "dlg.ToDagJson", "dlg.accessors", "dlg.Policy.String", "dlg.Policy.Match", "dlg.Meta.String", "dlg.IsValid"}
 
 // aloneComparable: operations whose result does not depend on the wall clock or on signatures, so that the
 // result inside a history can be compared with the result of the same operation run alone on a fresh world.
-var aloneComparable = map[string]bool{"ExecutionAllowed": true, "ExecutionAllowedWithArgsHook": true, "ExecutionAllowed/alt-args": true,
+var aloneComparable = map[string]bool{"ExecutionAllowed/hook-adds-key": true, "ExecutionAllowed/hook-fresh-args": true, "ExecutionAllowed": true, "ExecutionAllowedWithArgsHook": true, "ExecutionAllowed/alt-args": true,
 	"ExecutionAllowed/incomplete-loader": true, "dlg.Policy.Match/alt-data": true, "dlg.Policy.Match": true, "dlg.Policy.String": true,
 	"args.Iter": true, "args.String": true, "args.ToIPLD": true, "args.GetNode": true, "args.WriteableClone": true, "meta.Iter": true, "meta.String": true, "meta.Get": true}
 
-var keyTouching = map[string]bool{"ExecutionAllowed/alt-args": true, "ExecutionAllowed/incomplete-loader": true, "ExecutionAllowed": true, "ExecutionAllowedWithArgsHook": true, "inv.ToSealed": true, "inv.ToDagCbor": true, "inv.ToDagJson": true,
+var keyTouching = map[string]bool{"ExecutionAllowed/hook-adds-key": true, "ExecutionAllowed/hook-fresh-args": true, "ExecutionAllowed/alt-args": true, "ExecutionAllowed/incomplete-loader": true, "ExecutionAllowed": true, "ExecutionAllowedWithArgsHook": true, "inv.ToSealed": true, "inv.ToDagCbor": true, "inv.ToDagJson": true,
 	"inv.ToSealedWriter": true, "args.Iter": true, "args.String": true, "args.ToIPLD": true, "args.Equals": true, "args.WriteableClone": true, "meta.Iter": true, "meta.String": true}
 
 func sortedLines(s string) string {
@@ -301,6 +301,27 @@ func (w *world) apply(op string, which int, k *keeper) (res string) {
 		return errClass(w.inv.ExecutionAllowed(w.loader))
 	case "ExecutionAllowedWithArgsHook":
 		return errClass(w.inv.ExecutionAllowedWithArgsHook(w.loader, func(ro args.ReadOnly) (*args.Args, error) { return ro.WriteableClone(), nil }))
+	case "ExecutionAllowed/hook-adds-key":
+		// a hook that enriches the signed arguments with a key of its own
+		return errClass(w.inv.ExecutionAllowedWithArgsHook(w.loader, func(ro args.ReadOnly) (*args.Args, error) {
+			a := ro.WriteableClone()
+			if err := a.Add("origin-added-by-hook", "10.0.0.1"); err != nil {
+				return nil, err
+			}
+			return a, nil
+		}))
+	case "ExecutionAllowed/hook-fresh-args":
+		// ... or builds its own set from scratch, taking some of the signed values over
+		return errClass(w.inv.ExecutionAllowedWithArgsHook(w.loader, func(ro args.ReadOnly) (*args.Args, error) {
+			a := args.New()
+			for k, v := range ro.Iter() {
+				if err := a.Add(k, v); err != nil {
+					return nil, err
+				}
+			}
+			_ = a.Add("zz-extra", int64(which))
+			return a, nil
+		}))
 	case "ExecutionAllowed/alt-args":
 		return errClass(w.inv.ExecutionAllowedWithArgsHook(w.loader, func(ro args.ReadOnly) (*args.Args, error) { return chain.BuildArgs(w.alt) }))
 	case "ExecutionAllowed/incomplete-loader":
